@@ -9,7 +9,7 @@ FAMILY = "hashes"
 CORR = "Hashes"
 FAMNUM = 2
 ORACLES = {"prop_ok": 0}
-OPNAMES = {1: "murmur", 2: "xxh64", 3: "hash_u64", 4: "seed_hash", 5: "hll_coupon", 6: "theta_hash", 7: "cm_bucket", 8: "bloom_positions"}
+OPNAMES = {1: "murmur", 2: "xxh64", 3: "hash_u64", 4: "seed_hash", 5: "hll_coupon", 6: "theta_hash", 7: "cm_bucket", 8: "bloom_positions", 9: "cpc_row_col"}
 M = 2**64 - 1
 
 
@@ -72,6 +72,13 @@ def derived_ops(rng):
         nh = rng.choice([1, 2, 5, 8]); nb = rng.choice([3, 4, 7, 64, 100, 512])
         rs = [pyref.murmur3_x64_128(pyref.le8(i), seed)[0] for i in range(nh)]
         ops.append(op(7, [pyref.murmur3_x64_128(data, s)[0] % nb for s in rs], [seed, nh, nb] + it))
+    if pyref.seed_hash(seed) != 0:
+        lgk = rng.choice([4, 5, 11, 12, 20, 26])
+        g1, g2 = pyref.murmur3_x64_128(data, seed)
+        rc = ((g1 & ((1 << lgk) - 1)) << 6) | min(lz64(g2), 63)
+        if rc == 0xffffffff:
+            rc ^= 64
+        ops.append(op(9, [rc], [seed, lgk] + it))
     nbits = rng.choice([1, 63, 64, 65, 100, 128, 1000, 4096, 65536]); nhb = rng.choice([1, 2, 3, 7, 16])
     cap = (nbits + 63) // 64 * 64
     h0 = pyref.xxh64(data, seed); hh1 = pyref.xxh64(data, h0)
